@@ -213,8 +213,10 @@ func Shrink(try func(vals []uint32) *Result, orig *Result, maxTries int) (*Resul
 	class := orig.Class()
 	best := orig
 	tries := 0
+	deadline := time.Now().Add(time.Duration(envU("VERIF_SHRINK_WALL_S", 90)) * time.Second)
 	ok := func(vals []uint32) bool {
-		if tries >= maxTries {
+		if tries >= maxTries || time.Now().After(deadline) {
+			tries = maxTries
 			return false
 		}
 		tries++
@@ -568,7 +570,7 @@ func writeReplay(t *testing.T, env *Env, p *Prop, r *Result, dir, tier string, s
 	if shrink {
 		best, tries = Shrink(func(vals []uint32) *Result {
 			return RunOnce(t, env, p, r.Seed, r.Run, vals, true, false, tier)
-		}, r, int(envU("VERIF_SHRINK_TRIES", 400)))
+		}, r, int(envU("VERIF_SHRINK_TRIES", 3000)))
 	}
 	// final traced replay of the minimised tape
 	final := RunOnce(t, env, p, r.Seed, r.Run, best.Tape, true, true, tier)
